@@ -165,6 +165,15 @@ func init() {
 			[]Stmt{tbl("a", ints("x")...), tbl("b", ints("y")...), {Kind: "dropTable", T: "b"}},
 			[]Stmt{tbl("a", ints("x")...), tbl("b", ints("y")...)}})
 	pairWitnesses = append(pairWitnesses,
+		// FX-key-words-in-comment: the MODIFY of a column that is a key on both sides cut the first " PRIMARY KEY" out of the
+		// rendered definition — a comment containing the words was hit instead of the option (both keyword cases, both directions)
+		witness{"w-key-column-comment-contains-key-words-lower", runCfg{dialect: "mysql", lower: true},
+			[]Stmt{tbl("t", col("id", "int(11)", oPk, Opt{Kind: "comment", Val: "x"}), col("a", "int(11)"))},
+			[]Stmt{tbl("t", col("id", "int(11)", Opt{Kind: "comment", Val: "the primary key"}, oPk), col("a", "int(11)"))}},
+		witness{"w-key-column-comment-contains-key-words-upper", my,
+			[]Stmt{tbl("t", col("id", "int(11)", Opt{Kind: "comment", Val: "a PRIMARY KEY b"}, oPk), col("a", "int(11)"))},
+			[]Stmt{tbl("t", col("id", "int(11)", oPk, Opt{Kind: "comment", Val: "x"}), col("a", "int(11)"))}})
+	pairWitnesses = append(pairWitnesses,
 		// C09-i: the old side is a history that dropped the first of two foreign keys
 		witness{"w-old-history-dropped-first-fk", my,
 			[]Stmt{tbl("u", col("id", "int(11)", oNotNull, oPk)), tbl("t", ints("id", "a", "b")...),
